@@ -255,6 +255,16 @@ func runC11(o *cli.Opts, run *evid.Run) {
 					}
 				}
 				os.Remove(out)
+				// in-place conversion (same input and output path)
+				inplace := filepath.Join(o.Scratch, fmt.Sprintf("c11-%d-inplace.ps", di))
+				os.WriteFile(inplace, data, 0o644)
+				res = proc.Run(bin, nil, 10*time.Minute, nil, "convert-to-raw", "--input", inplace, "--output", inplace)
+				if res.Exit != 0 || res.TimedOut {
+					run.Violate(key+"/convert-in-place", fmt.Sprintf("convert-to-raw with the same input and output path exits %d: %s", res.Exit, lastLine(res.Stderr)), nil)
+				} else if conv, err := os.ReadFile(inplace); err == nil {
+					variants = append(variants, variant{"converted-in-place", conv})
+				}
+				os.Remove(inplace)
 			}
 		}
 		for vi, v := range variants {
